@@ -31,7 +31,24 @@ use std::sync::Arc;
 use std::sync::atomic::{AtomicBool, AtomicU64, Ordering};
 use std::time::{Duration, Instant};
 
-pub const CASE_WALL_LIMIT_MS: u64 = 5000;
+/// per-case user-CPU-time limit (hang detection): thorough 5 s, quick 2 s
+static WALL_LIMIT_MS: AtomicU64 = AtomicU64::new(5000);
+
+/// set from the tier in main(); the tier is handed on to the children
+pub fn set_tier(tier: engine::Tier) {
+    WALL_LIMIT_MS.store(tier.pick(2000, 5000), Ordering::SeqCst);
+    THOROUGH.store(tier == engine::Tier::Thorough, Ordering::SeqCst);
+}
+
+static THOROUGH: AtomicBool = AtomicBool::new(false);
+
+pub fn set_wall_limit_ms(ms: u64) {
+    WALL_LIMIT_MS.store(ms, Ordering::SeqCst);
+}
+
+pub fn wall_limit_ms() -> u64 {
+    WALL_LIMIT_MS.load(Ordering::SeqCst)
+}
 
 #[derive(Debug, Clone)]
 pub enum Outcome {
@@ -41,25 +58,47 @@ pub enum Outcome {
     Died { kind: &'static str, detail: String },
 }
 
+/// Largest file a C07 child may create (a damaged recovery log can ask for a
+/// terabyte-sized sparse file; with the limit in place the subject simply
+/// receives EFBIG — SIGXFSZ is ignored — and returns an error).
+pub const FILE_SIZE_LIMIT_BYTES: u64 = 64 * 1024 * 1024;
+
+/// stage marker the case executor may set; reported with enormous allocations and hangs
+pub static STAGE: AtomicU64 = AtomicU64::new(0);
+
 /// Run cases `start..end` of `job` in child processes; `on(idx, outcome)` is
 /// called exactly once per case, in order.
 pub fn run_range(prop: &str, job: &[String], start: usize, end: usize, on: &mut dyn FnMut(usize, Outcome)) {
+    run_range_opt(prop, job, start, end, false, on)
+}
+
+pub fn run_range_opt(prop: &str, job: &[String], start: usize, end: usize, limit_file_size: bool, on: &mut dyn FnMut(usize, Outcome)) {
     let exe = std::env::current_exe().unwrap_or_else(|e| engine::machinery_failure(&format!("current_exe: {e}")));
     let mut next = start;
     let mut consecutive_empty_deaths = 0;
     while next < end {
-        let mut cmd = Command::new(&exe);
+        let mut cmd = if limit_file_size {
+            // dash: ulimit -f counts 512-byte blocks
+            let mut c = Command::new("/bin/sh");
+            c.arg("-c").arg(format!("trap '' XFSZ; ulimit -f {}; exec \"$0\" \"$@\"", FILE_SIZE_LIMIT_BYTES / 512)).arg(&exe);
+            c
+        } else {
+            Command::new(&exe)
+        };
         cmd.arg(prop).arg("--child");
         for j in job {
             cmd.arg(j);
         }
+        cmd.arg("--tier").arg(if THOROUGH.load(Ordering::SeqCst) { "thorough" } else { "quick" });
         cmd.arg(next.to_string()).arg(end.to_string());
         cmd.env("RUST_BACKTRACE", "0");
+        cmd.env("VERIF_CASE_LIMIT_MS", wall_limit_ms().to_string());
         cmd.stdin(Stdio::null()).stdout(Stdio::piped()).stderr(Stdio::null());
         let mut ch = cmd.spawn().unwrap_or_else(|e| engine::machinery_failure(&format!("cannot spawn child: {e}")));
         let out = ch.stdout.take().unwrap();
         let mut enormous: Option<String> = None;
         let mut hang = false;
+        let mut hang_stage = String::new();
         let mut done = false;
         let mut recycle = false;
         let first = next;
@@ -80,8 +119,9 @@ pub fn run_range(prop: &str, job: &[String], start: usize, end: usize, on: &mut 
                 next += 1;
             } else if let Some(sz) = line.strip_prefix("ENORMOUS ") {
                 enormous = Some(sz.to_string());
-            } else if line.starts_with("HANG ") {
+            } else if let Some(rest) = line.strip_prefix("HANG ") {
                 hang = true;
+                hang_stage = rest.split(' ').nth(1).unwrap_or("0").to_string();
             } else if line == "DONE" {
                 done = true;
             } else if line == "RECYCLE" {
@@ -117,7 +157,7 @@ pub fn run_range(prop: &str, job: &[String], start: usize, end: usize, on: &mut 
         }
         let _ = consecutive_empty_deaths;
         let outcome = if hang {
-            Outcome::Died { kind: "hang", detail: format!("no result within {CASE_WALL_LIMIT_MS} ms") }
+            Outcome::Died { kind: "hang", detail: format!("stage {hang_stage}: no result within {} ms of CPU time", wall_limit_ms()) }
         } else if let Some(sz) = enormous {
             Outcome::Died { kind: "enormous-allocation", detail: format!("single allocation request of {sz} bytes (refused; process aborted: {how})") }
         } else {
@@ -133,10 +173,27 @@ pub fn run_range(prop: &str, job: &[String], start: usize, end: usize, on: &mut 
 
 /// abandoned (suspended) worker threads after which the child exits cleanly
 /// and is restarted by the parent
-pub const MAX_ABANDONED_THREADS: usize = 2000;
-const WORKER_STACK: usize = 16 * 1024 * 1024;
+pub const MAX_ABANDONED_THREADS: usize = 1000;
+const WORKER_STACK: usize = 8 * 1024 * 1024;
+
+/// USER CPU time (clock ticks of 10 ms) of thread `tid` of this process.
+/// System time is left out on purpose: page faults on never-touched memory
+/// cost 50-800 us each in this sandbox and are not what a hang looks like.
+fn thread_cpu_ticks(tid: u64) -> Option<u64> {
+    let s = std::fs::read_to_string(format!("/proc/self/task/{tid}/stat")).ok()?;
+    // fields after the ")" that closes the command name: state is #1, utime #12, stime #13
+    let rest = s.rsplit_once(')')?.1;
+    let f: Vec<&str> = rest.split_whitespace().collect();
+    f.get(11)?.parse::<u64>().ok()
+}
+
+fn own_tid() -> u64 {
+    std::fs::read_link("/proc/thread-self").ok().and_then(|p| p.file_name().and_then(|n| n.to_str().and_then(|s| s.parse().ok()))).unwrap_or(0)
+}
 
 struct Shared {
+    /// kernel thread id of the worker
+    tid: AtomicU64,
     /// index of the case being executed
     cur: AtomicU64,
     /// 0 = idle, otherwise ms since process start + 1
@@ -167,6 +224,9 @@ pub fn child_fail(msg: &str) -> ! {
 /// Runs `exec(idx)` for idx in start..end on supervised worker threads and
 /// speaks the protocol on stdout. `exec` returns the payload of the case.
 pub fn child_main(start: usize, end: usize, exec: Arc<dyn Fn(usize) -> String + Send + Sync>) -> i32 {
+    if let Some(ms) = std::env::var("VERIF_CASE_LIMIT_MS").ok().and_then(|s| s.parse().ok()) {
+        set_wall_limit_ms(ms);
+    }
     let fd = std::io::stdout().as_fd().try_clone_to_owned().unwrap_or_else(|e| child_fail(&format!("dup stdout: {e}")));
     let out = std::fs::File::from(fd);
     let log = out.try_clone().unwrap_or_else(|e| child_fail(&format!("dup stdout: {e}")));
@@ -175,12 +235,13 @@ pub fn child_main(start: usize, end: usize, exec: Arc<dyn Fn(usize) -> String + 
     let mut abandoned = 0usize;
     let t0 = Instant::now();
     while next < end {
-        let sh = Arc::new(Shared { cur: AtomicU64::new(next as u64), started: AtomicU64::new(0), finished: AtomicBool::new(false), out: out.try_clone().unwrap_or_else(|e| child_fail(&format!("dup: {e}"))), t0 });
+        let sh = Arc::new(Shared { tid: AtomicU64::new(0), cur: AtomicU64::new(next as u64), started: AtomicU64::new(0), finished: AtomicBool::new(false), out: out.try_clone().unwrap_or_else(|e| child_fail(&format!("dup: {e}"))), t0 });
         let w = sh.clone();
         let ex = exec.clone();
         let from = next;
         let spawned = std::thread::Builder::new().stack_size(WORKER_STACK).spawn(move || {
             alloc::mark_subject_thread();
+            w.tid.store(own_tid(), Ordering::SeqCst);
             for i in from..end {
                 w.cur.store(i as u64, Ordering::SeqCst);
                 w.started.store(w.t0.elapsed().as_millis() as u64 + 1, Ordering::SeqCst);
@@ -191,7 +252,10 @@ pub fn child_main(start: usize, end: usize, exec: Arc<dyn Fn(usize) -> String + 
             w.finished.store(true, Ordering::SeqCst);
         });
         let handle = spawned.unwrap_or_else(|e| child_fail(&format!("thread spawn: {e}")));
-        // supervise
+        // supervise. Hang = the case has used more CPU time than the limit
+        // (wall time would misfire on a loaded machine), or has made no
+        // progress for 20x the limit of wall time (blocked).
+        let mut watch: Option<(u64, u64)> = None; // (case, cpu ticks when first seen late)
         loop {
             if sh.finished.load(Ordering::SeqCst) {
                 let _ = handle.join();
@@ -202,7 +266,7 @@ pub fn child_main(start: usize, end: usize, exec: Arc<dyn Fn(usize) -> String + 
             if sz != 0 {
                 // the worker is suspended inside the allocator on case `cur`
                 let idx = sh.cur.load(Ordering::SeqCst) as usize;
-                write_line(&out, idx, &format!("X|{sz}"));
+                write_line(&out, idx, &format!("X|{sz}|{}", STAGE.load(Ordering::SeqCst)));
                 abandoned += 1;
                 next = idx + 1;
                 std::mem::forget(handle);
@@ -215,9 +279,24 @@ pub fn child_main(start: usize, end: usize, exec: Arc<dyn Fn(usize) -> String + 
             let s = sh.started.load(Ordering::SeqCst);
             if s != 0 {
                 let now = t0.elapsed().as_millis() as u64 + 1;
-                if now > s + CASE_WALL_LIMIT_MS {
-                    alloc::raw_log(b"HANG ", sh.cur.load(Ordering::SeqCst));
-                    std::process::abort();
+                let cur = sh.cur.load(Ordering::SeqCst);
+                if now > s + 500 {
+                    // late: start (or continue) watching the CPU time of this case
+                    let ticks = thread_cpu_ticks(sh.tid.load(Ordering::SeqCst)).unwrap_or(0);
+                    let base = match watch {
+                        Some((c, b)) if c == cur => b,
+                        _ => {
+                            watch = Some((cur, ticks));
+                            ticks
+                        }
+                    };
+                    let cpu_ms = (ticks - base.min(ticks)) * 10 + 500;
+                    if cpu_ms > wall_limit_ms() || now > s + 20 * wall_limit_ms() {
+                        alloc::raw_log2(b"HANG ", cur, STAGE.load(Ordering::SeqCst));
+                        std::process::abort();
+                    }
+                    std::thread::sleep(Duration::from_millis(20));
+                    continue;
                 }
             }
             std::thread::sleep(Duration::from_micros(150));
